@@ -169,6 +169,25 @@ func main() {
 		wireMain()
 		return
 	}
+	if len(os.Args) > 5 && os.Args[1] == "crashchild" {
+		crashChild(os.Args[2:])
+		return
+	}
+	if len(os.Args) > 1 && os.Args[1] == "conc" {
+		os.Args = append(os.Args[:1], os.Args[2:]...)
+		concMain()
+		return
+	}
+	if len(os.Args) > 1 && os.Args[1] == "crash" {
+		os.Args = append(os.Args[:1], os.Args[2:]...)
+		crashMain()
+		return
+	}
+	if len(os.Args) > 1 && os.Args[1] == "fault" {
+		os.Args = append(os.Args[:1], os.Args[2:]...)
+		faultMain()
+		return
+	}
 	if len(os.Args) > 1 && os.Args[1] == "scan" {
 		os.Args = append(os.Args[:1], os.Args[2:]...)
 		scanMain()
